@@ -562,16 +562,93 @@ Proof.
   vm_compute. repeat split; discriminate.
 Qed.
 
-(* ---------------------------------------------------------------- two calls with the download cache *)
+(* ---------------------------------------------------------------- consequences of the main theorem *)
 
-Theorem cached_target_only_if_match : forall size expected p1 l1 attempts s1 p2 l2 s2,
-  let r := download_twice size expected p1 l1 attempts s1 p2 l2 s2 in
-  (o_err (snd r) = ENone -> o_target (snd r) = Some expected) /\
-  (o_err (snd r) <> ENone -> o_target (snd r) = None).
+(* an accepted file has the size of the content whose digest was declared (= the declared size when that is consistent) *)
+Theorem accepted_size_matches : forall size expected partial leave attempts script t,
+  o_err (download size expected partial leave attempts script) = ENone ->
+  o_target (download size expected partial leave attempts script) = Some t ->
+  t = expected /\ length t = length expected /\ (N.of_nat (length expected) = size -> N.of_nat (length t) = size).
 Proof.
-  intros size expected p1 l1 attempts s1 p2 l2 s2. cbv zeta. unfold download_twice.
-  destruct (o_err (download size expected p1 l1 attempts s1)) eqn:E1; cbn [snd o_err o_target].
-  - split; [intros _; now apply target_only_if_match | intro H; contradiction].
-  - split; [apply target_only_if_match | apply (failure_leaves_no_target true)].
-  - split; [apply target_only_if_match | apply (failure_leaves_no_target true)].
+  intros size expected partial leave attempts script t He Ht.
+  rewrite (target_only_if_match _ _ _ _ _ _ He) in Ht. inversion Ht; subst. auto.
+Qed.
+
+(* ---------------------------------------------------------------- the download cache *)
+
+Definition cache_ok (expected : bytes) (cache : option bytes) : Prop := cache = None \/ cache = Some expected.
+
+Definition outcome_ok (expected : bytes) (o : outcome) : Prop :=
+  (o_err o = ENone -> o_target o = Some expected) /\ (o_err o <> ENone -> o_target o = None).
+
+Lemma download_c_ok : forall cache size expected attempts k,
+  cache_ok expected cache -> k_pre k = None ->
+  outcome_ok expected (fst (download_c cache size expected attempts k)) /\
+  cache_ok expected (snd (download_c cache size expected attempts k)).
+Proof.
+  intros cache size expected attempts k Hc Hp. unfold download_c. rewrite Hp.
+  destruct Hc as [-> | ->].
+  - destruct (o_err (download size expected (opt_bytes (k_partial k)) (k_leave k) attempts (k_script k))) eqn:E;
+      cbn [fst snd].
+    + pose proof (target_only_if_match _ _ _ _ _ _ E) as Ht. rewrite Ht. split; [|right; reflexivity].
+      split; [intros _; exact Ht | intro H; rewrite E in H; contradiction].
+    + split; [|left; reflexivity]. split; cbn [o_err o_target]; [discriminate | reflexivity].
+    + split; [|left; reflexivity]. split; cbn [o_err o_target]; [discriminate | reflexivity].
+  - cbn [fst snd]. split; [|right; reflexivity]. split; cbn [o_err o_target]; [reflexivity | intro H; contradiction].
+Qed.
+
+(* any number of calls on one Store, cache on, starting from a cache that holds nothing or the right content, target
+   paths free: every call that succeeds -- by download or by cache hit -- leaves exactly the expected content at its
+   target, every call that fails leaves none; the cache never holds anything else *)
+Theorem cache_sequence_only_if_match : forall ks cache size expected attempts,
+  cache_ok expected cache -> Forall (fun k => k_pre k = None) ks ->
+  Forall (outcome_ok expected) (fst (download_seq cache size expected attempts ks)) /\
+  cache_ok expected (snd (download_seq cache size expected attempts ks)).
+Proof.
+  induction ks as [|k r IH]; intros cache size expected attempts Hc Hp; cbn [download_seq].
+  - split; [constructor | exact Hc].
+  - inversion Hp; subst.
+    destruct (download_c_ok cache size expected attempts k Hc H1) as [Ho Hc'].
+    destruct (download_c cache size expected attempts k) as [o cache'].
+    destruct (IH cache' size expected attempts Hc' H2) as [Hos Hc''].
+    destruct (download_seq cache' size expected attempts r) as [os cache''].
+    cbn [fst snd] in *. split; [constructor; assumption | exact Hc''].
+Qed.
+
+(* the two guards are needed: a cache hit verifies nothing. (1) a file already at the target path + a cache entry:
+   success, the file stays (EEXIST counts as a hit); (2) a cache file that was modified: success with that content.
+   Both confirmed on the real code; both outside the property's quantifier. *)
+Theorem cache_hit_verifies_nothing : exists expected garbage size attempts,
+  garbage <> expected /\
+  (let o := fst (download_c (Some expected) size expected attempts
+                   {| k_pre := Some garbage; k_partial := None; k_leave := false; k_script := [] |}) in
+   o_err o = ENone /\ o_target o = Some garbage) /\
+  (let o := fst (download_c (Some garbage) size expected attempts
+                   {| k_pre := None; k_partial := None; k_leave := false; k_script := [] |}) in
+   o_err o = ENone /\ o_target o = Some garbage).
+Proof.
+  exists [97;98;99;100], [88], 4, 3%nat. split; [discriminate|]. split; vm_compute; split; reflexivity.
+Qed.
+
+(* ---------------------------------------------------------------- deltas *)
+
+(* delta download, xdelta3 as an arbitrary oracle, fallback to the full download: the same two halves of the property *)
+Theorem delta_target_only_if_match : forall size expected partial leave attempts d script,
+  outcome_ok expected (download_delta size expected partial leave attempts d script).
+Proof.
+  intros size expected partial leave attempts d script.
+  assert (Hfull : forall p s, outcome_ok expected (download size expected (opt_bytes p) leave attempts s)).
+  { intros p s. split; [apply target_only_if_match | apply (failure_leaves_no_target true)]. }
+  assert (Hacc : forall f, beq f expected = true ->
+            outcome_ok expected {| o_err := ENone; o_target := Some f; o_partial := None |}).
+  { intros f Hf. apply beq_true_iff in Hf. subst. split; cbn; [reflexivity | intro H; contradiction]. }
+  unfold download_delta.
+  destruct (negb (d_format_ok d)); [apply Hfull|].
+  destruct (dl_loop true (pred attempts) script (d_content d) [] 0 0) as [[[e f] p] rest].
+  destruct e; try apply Hfull.
+  destruct (negb (d_from_present d)); [apply Hfull|].
+  destruct (d_x d) as [|out|]; [apply Hfull | |].
+  - destruct (beq out expected) eqn:E; [now apply Hacc | apply Hfull].
+  - destruct partial as [p0|]; [|apply Hfull].
+    destruct (beq p0 expected) eqn:E; [now apply Hacc | apply Hfull].
 Qed.
